@@ -279,63 +279,44 @@ Qed.
 Lemma spec_reg2bin_unplaced : spec_reg2bin (-1) 0 = 4680.
 Proof. reflexivity. Qed.
 
-(** ** Operation codes outside the table: the index expression panics. *)
-Lemma consumes_unknown k : 11 <= k -> consumes k = Panic 1.
-Proof.
-  intros H. unfold consumes.
-  replace (k <? zlen sam_consume) with false; [rewrite andb_false_r; reflexivity|].
-  symmetry. apply Z.ltb_ge. change (zlen sam_consume) with 11. lia.
-Qed.
-
-Lemma consumes_in_table k : 0 <= k <= 10 -> exists q r, consumes k = Ok (q, r).
-Proof.
-  intros H. unfold consumes.
-  replace ((0 <=? k) && (k <? zlen sam_consume)) with true.
-  - destruct (nth (Z.to_nat k) sam_consume (0, 0)) as [q r]. exists q, r. reflexivity.
-  - symmetry. apply andb_true_intro. change (zlen sam_consume) with 11.
-    split; [apply Z.leb_le|apply Z.ltb_lt]; lia.
-Qed.
-
+(** ** Every uint32 word decodes: codes 10..15 are the undefined operation,
+    which consumes nothing (Consumes clamps them to the empty lastCigar row). *)
 Lemma code_range w : 0 <= spec_op_code w < 16.
 Proof. unfold spec_op_code. apply Z.mod_pos_bound. lia. Qed.
 
-Lemma lengths_unknown_panics c : forall r q,
-  Exists (fun w => 11 <= spec_op_code w) c -> exists k, lengths_loop c r q = Panic k.
+Lemma cop_of_code_total k : 0 <= k < 16 -> exists o, cop_of_code k = Some o.
 Proof.
-  induction c as [|w c IH]; intros r q H; [inversion H|].
-  cbn [lengths_loop]. unfold op_consume. rewrite len_is_div, type_is_mod. cbn [obind].
-  destruct (Z_lt_le_dec (spec_op_code w) 11) as [Hk|Hk].
-  - destruct (consumes_in_table (spec_op_code w)) as (cq & cr & E); [pose proof (code_range w); lia|].
-    rewrite E. cbn [obind fst snd].
-    inversion H as [? ? Hw|? ? Hc]; subst; [lia|].
-    apply IH. assumption.
-  - rewrite consumes_unknown by assumption. exists 1. reflexivity.
+  intros H. destruct k as [|p|p]; [eexists; reflexivity| |lia].
+  do 4 (try destruct p as [p|p|]); try lia; eexists; reflexivity.
 Qed.
 
-Lemma end_unknown_panics c : forall cur e,
-  Exists (fun w => 11 <= spec_op_code w) c -> exists k, end_loop c cur e = Panic k.
+Lemma decode_total c : exists sc, spec_decode c = Some sc.
 Proof.
-  induction c as [|w c IH]; intros cur e H; [inversion H|].
-  cbn [end_loop]. unfold op_consume. rewrite len_is_div, type_is_mod. cbn [obind].
-  destruct (Z_lt_le_dec (spec_op_code w) 11) as [Hk|Hk].
-  - destruct (consumes_in_table (spec_op_code w)) as (cq & cr & E); [pose proof (code_range w); lia|].
-    rewrite E. cbn [obind fst snd].
-    inversion H as [? ? Hw|? ? Hc]; subst; [lia|].
-    apply IH. assumption.
-  - rewrite consumes_unknown by assumption. exists 1. reflexivity.
+  induction c as [|w c [sc IH]]; [exists []; reflexivity|].
+  destruct (cop_of_code_total _ (code_range w)) as [o Ho].
+  exists ((o, spec_op_len w) :: sc). cbn [spec_decode]. rewrite Ho, IH. reflexivity.
 Qed.
 
-Lemma unknown_op_panics_gen flags pos c :
-  Exists (fun w => 11 <= spec_op_code w) c ->
-  (exists k, cigar_lengths c = Panic k) /\
-  (spec_unmapped flags = false -> exists k, record_end flags pos c = Panic k).
+Lemma undefined_code_is_opU k : 10 <= k <= 15 -> cop_of_code k = Some opU.
 Proof.
-  intros H. split; [apply lengths_unknown_panics; assumption|].
-  intros Hu. unfold record_end. rewrite unmapped_flag, Hu. cbn [orb].
-  destruct c as [|w c]; [inversion H|].
-  replace (zlen (w :: c) =? 0) with false
-    by (symmetry; apply Z.eqb_neq; unfold zlen; simpl length; lia).
-  apply end_unknown_panics. assumption.
+  intros H. destruct k as [|p|p]; try lia.
+  do 4 (try destruct p as [p|p|]); try lia; reflexivity.
+Qed.
+
+Lemma undefined_op_consumes_nothing_gen k :
+  10 <= k <= 15 -> consumes k = Ok (0, 0).
+Proof. intros H. rewrite (consumes_known k opU (undefined_code_is_opU k H)). reflexivity. Qed.
+
+(** Consumes never panics, whatever the type byte. *)
+Lemma consumes_total k : 0 <= k -> exists q r, consumes k = Ok (q, r).
+Proof.
+  intros H. unfold consumes, sam_CigarOpType_Consumes.
+  destruct (Z.ltb_spec 10 k).
+  - exists 0, 0. reflexivity.
+  - replace ((0 <=? k) && (k <? zlen sam_consume)) with true.
+    + destruct (nth (Z.to_nat k) sam_consume (0, 0)) as [q r]. exists q, r. reflexivity.
+    + symmetry. apply andb_true_intro. change (zlen sam_consume) with 11.
+      split; [apply Z.leb_le|apply Z.ltb_lt]; lia.
 Qed.
 
 (** ** End to end: the bin of a placed record is listed for every query that
